@@ -147,11 +147,39 @@ def run_case(case):
         opts.append("--test-skip-multi-scan")
     a, fs = scen.make(rng, cfg, "c11", ext4=ext4)
     hist = []
+    # one case in eight: the disks report no UUID at first (inodes are recorded but not trusted) and do from the second
+    # round on; in between two files of equal size and time-stamp get each other's inode number while names, bytes and
+    # time-stamps stay as they are (restore from a backup) - nothing changed, nothing may be re-attributed
+    transition = idx % 8 == 5
+    if transition:
+        opts = [o for o in opts if o != "--test-fake-uuid"]
     try:
         A.populate(fs, rng, nfiles=rng.randint(4, 16), hostile=0.2)
+        if transition:
+            td = rng.choice(a.disks)
+            tn = rng.randint(1, 3 * a.bs)
+            tt = fs.clock.next()
+            fs.write(td, b"twin-a", A.gen_bytes(rng, tn, "rand"), mtime_ns=tt)
+            fs.write(td, b"twin-b", A.gen_bytes(rng, tn, "rand"), mtime_ns=tt)
         prev_sig = {}
         rounds = 3 if tier == "quick" else 6
         for rnd in range(rounds):
+            if rnd == 1 and transition:
+                pa, pb = fs.path(td, b"twin-a"), fs.path(td, b"twin-b")
+                if os.path.isfile(pa) and os.path.isfile(pb) and not os.path.islink(pa) and not os.path.islink(pb):
+                    da, db = open(pa, "rb").read(), open(pb, "rb").read()
+                    sa, sb = os.lstat(pa), os.lstat(pb)
+                    tmp = pa + b".xchg"
+                    os.rename(pa, tmp)
+                    os.rename(pb, pa)
+                    os.rename(tmp, pb)
+                    for p_, data_, st_ in ((pa, da, sa), (pb, db, sb)):
+                        with open(p_, "r+b") as fh:
+                            fh.write(data_)
+                        os.utime(p_, ns=(st_.st_atime_ns, st_.st_mtime_ns))
+                    hist.append("inode-exchange")
+                    res["counters"]["uuid_transitions_with_inode_exchange"] = 1
+                opts = opts + ["--test-fake-uuid"]
             if rnd > 0:
                 ops = scen.mutate(fs, rng, rng.randint(1, 8), hostile=0.2)
                 # several operations on the same path
